@@ -21,6 +21,13 @@ Oracle
       the schedule; ``update`` is called after every step until no uncovered current goal is left.  After every update:
       no current goal is covered; every goal all of whose structural parents (own recomputation from the CDG edge list)
       are covered is current or covered.  At the fix-point every goal must have been current (or covered) at some step.
+  (e) Execution-shaped coverage: for a few walks through the real CFG of a code object (entry onwards, successor chosen
+      by the schedule, at most 80 edges -- a prefix is what a test that raises would execute) a synthetic chromosome
+      covers exactly the (predicate, outcome) goals of the labelled edges taken.  After ONE ``update`` of a fresh
+      ``_GoalsManager``/``CoverageArchive`` with that chromosome, every goal it covers must be in the archive: a test
+      cannot take a branch without taking a controlling branch of it first, so the update loop has to reach all of
+      them from the roots (this is what "reachable in the goal graph" means for real executions, and it does not
+      trust the pruned CDG).
 """
 
 from __future__ import annotations
@@ -46,6 +53,7 @@ META = {
     "rule": "case = pygen module model (if/elif/else, while, for, break/continue, try/except/else/finally, raise, early return, "
             "with, match, boolean operators, closures, generator functions, a class) x optional C08 exclusion plan (about half "
             "of the cases) x schedule of 48 integers choosing which current goals get covered next (1-3 per step); "
+            "the same integers steer up to 8 walks through the real CFGs (execution-shaped coverage); "
             "non-trivial = at least one goal at dependency depth >= 2 and the simulation reached the fix-point; a case with "
             "exclusions additionally needs >= 1 CDG node removed by _create_covered_cdg; distinct by the whole case",
     "assumptions": [
@@ -330,7 +338,7 @@ def _child(case: dict[str, Any], workdir: str) -> dict[str, Any]:  # noqa: C901,
             for gname, ps in parents.items():
                 if gname in covered or gname in now:
                     continue
-                if gname in own_roots or (ps and ps <= covered):
+                if (gname in own_roots and gname in initial) or (ps and ps <= covered):  # non-initial roots: see (c)
                     goal = by_name[gname].goal
                     line = None if goal.is_branchless_code_object else sp.existing_predicates[goal.predicate_id].line_no
                     fail(f"update|goal-not-current-although-all-parents-covered|{mode}",
@@ -352,6 +360,54 @@ def _child(case: dict[str, Any], workdir: str) -> dict[str, Any]:  # noqa: C901,
                  f"covered; first: {gname} (line {line}), own parents {sorted(parents[gname])}\n"
                  f"{c08._numbered(lay, line or 1, 30, 6)}")
 
+    # ---- (e) execution-shaped coverage along walks through the real CFGs
+    from pynguin.instrumentation import controlflow as cf
+
+    walks = 0
+    code_ids = sorted(cid for cid in node_pred if node_pred[cid])
+    for w, cid in enumerate(code_ids[:4] * 2):
+        cmeta = sp.existing_code_objects[cid]
+        graph = cmeta.cfg.graph
+        node = cmeta.cfg.entry_node
+        taken: list[str] = []
+        for k in range(80):
+            succs = sorted(graph.successors(node), key=lambda n: getattr(n, "index", 10 ** 6))
+            if not succs:
+                break
+            nxt = succs[schedule[(7 * w + k) % len(schedule)] % len(succs)]
+            lab = graph.get_edge_data(node, nxt).get(cf.EDGE_DATA_BRANCH_VALUE)
+            if lab is not None and node in node_pred[cid]:
+                gname = f"branch:{node_pred[cid][node]}:{bool(lab)}"
+                if gname not in taken:
+                    taken.append(gname)
+            node = nxt
+        if not taken:
+            continue
+        walks += 1
+        archive2 = CoverageArchive(OrderedSet())
+        try:
+            manager2 = _GoalsManager(fitness_functions, archive2, sp)  # type: ignore[arg-type]
+            manager2.update([_make_chromosome(set(taken))])
+        except Exception as exc:  # noqa: BLE001
+            if not has_pynguin_frame(exc):
+                raise
+            fail(f"walk|update-raises|{exc_sig(exc)}|{mode}", f"{cfg_txt}\n{exc_detail(exc)}")
+            break
+        archived2 = {_goal_name(f.goal) for f in archive2.covered_goals}
+        lost = [g for g in taken if g not in archived2]
+        if lost:
+            gname = lost[0]
+            pid = int(gname.split(":")[1])
+            line = sp.existing_predicates[pid].line_no
+            co = cmeta.code_object
+            kind = "generator" if co.co_flags & 0x20 else "function"
+            pruned = "pruned-cdg" if any(_is_block(n) and n not in set(cmeta.cdg.graph.nodes) for n in graph.nodes) else "full-cdg"
+            fail(f"walk|covered-goal-not-archived|{pruned}|{kind}|{mode}",
+                 f"{cfg_txt}: a walk through the CFG of {co.co_name}@{co.co_firstlineno} takes, in this order, {taken}; after one "
+                 f"update with a chromosome covering exactly these goals the archive holds {sorted(archived2)} -- {gname} "
+                 f"(line {line}) never became a goal (own parents {sorted(parents.get(gname, ()))}, root-dependent by own "
+                 f"search: {gname in own_roots})\n{c08._numbered(lay, line or 1, 30, 6)}")
+
     # ---- statistics
     depth: dict[str, int] = {g: 0 for g in own_roots}
     frontier = list(own_roots)
@@ -366,7 +422,7 @@ def _child(case: dict[str, Any], workdir: str) -> dict[str, Any]:  # noqa: C901,
                 depth[c] = depth[g] + 1
                 frontier.append(c)
     max_depth = max(depth.values(), default=0)
-    res["stats"] = {"goals": len(by_name), "roots": len(initial), "max_depth": max_depth, "steps": step, "removed_cdg_nodes": removed_nodes}
+    res["stats"] = {"goals": len(by_name), "roots": len(initial), "max_depth": max_depth, "steps": step, "removed_cdg_nodes": removed_nodes, "walks": walks}
     res["nontrivial"] = bool(max_depth >= 2 and not broken and (not plan or removed_nodes >= 1))
     labels = res["labels"]
     labels.append(mode)
@@ -382,6 +438,8 @@ def _child(case: dict[str, Any], workdir: str) -> dict[str, Any]:  # noqa: C901,
             labels.append("only_cover")
     if len(by_name) >= 20:
         labels.append("goals:20+")
+    if walks:
+        labels.append("walks-checked")
     return res
 
 
